@@ -1,0 +1,41 @@
+//go:build verif
+
+// Hand-written contracts of the EdDSA key generation rounds (routing / acceptance /
+// update contracts are generated: zz_contracts_proto_verif.go).
+
+package keygen
+
+//@ global zero != nil && val(zero) == 0
+
+//@ define kgN(round) = len(round.Parameters.parties.partyIDs)
+//@ define edKgWF(round) = wfParams(round.Parameters) && isedw(round.Parameters.ec) && wfIDs(round.Parameters.parties.partyIDs) && round.temp != nil && round.save != nil && round.out != nil && round.end != nil && len(round.ok) == kgN(round) && len(round.temp.kgRound1Messages) == kgN(round) && len(round.temp.kgRound2Message1s) == kgN(round) && len(round.temp.kgRound2Message2s) == kgN(round) && len(round.temp.KGCs) == kgN(round) && 0 <= round.Parameters.partyID.Index && round.Parameters.partyID.Index < kgN(round) && kgN(round) <= 1024
+//@ define kg1slotEd(m) = (!isnil(m) && istype(msgcontent(m), "*eddsa/keygen.KGRound1Message") && cast(msgcontent(m), "*eddsa/keygen.KGRound1Message") != nil)
+
+//@ func (*KGRound1Message).UnmarshalCommitment
+//@   props C06 C16
+//@   requires m != nil
+//@   ensures result != nil && fresh(result) && val(result) == beint(bytes(m.Commitment)) && val(result) >= 0
+
+//@ func (*base).getSSID
+//@   props C06 C12
+//@   requires round != nil && wfParams(round.Parameters) && okCurve(round.Parameters.ec) && wfIDs(round.Parameters.parties.partyIDs) && round.temp != nil && round.temp.ssidNonce != nil
+//@   requires [committee-size] len(round.Parameters.parties.partyIDs) <= 1024
+//@   ensures result1 == nil && !isnil(result0) && fresh(result0) && len(result0) <= 32
+
+//@ func (*round1).Start
+//@   deadpoints 2
+//@   note the error branch after getSSID is unreachable: this package's getSSID never fails
+//@   props C06 C05 C03
+//@   requires round != nil && round.base != nil && edKgWF(round)
+//@   requires [threshold-range] 0 <= round.Parameters.threshold && round.Parameters.threshold < 1024
+//@   modifies *
+//@   ensures [C03.second-start-sends-nothing] old(round.started) ==> (result != nil && sent(old(round.out)) == old(sent(round.out)))
+
+//@ func (*round2).Start
+//@   props C06 C05 C03
+//@   requires round != nil && round.round1 != nil && round.round1.base != nil && edKgWF(round)
+//@   requires [round-1-complete] forall j in 0..len(round.temp.kgRound1Messages) :: kg1slotEd(round.temp.kgRound1Messages[j])
+//@   requires [own-dealing-from-round-1] len(round.temp.shares) == kgN(round) && (forall k in 0..len(round.temp.shares) :: (round.temp.shares[k] != nil && round.temp.shares[k].ID != nil && round.temp.shares[k].Share != nil)) && len(round.temp.vs) >= 1 && validPoint(round.temp.vs[0]) && round.temp.vs[0].curve == round.Parameters.ec && round.temp.ui != nil && val(round.temp.ui) >= 0 && len(round.temp.ssid) <= 4096 && (forall k in 0..len(round.temp.deCommitPolyG) :: round.temp.deCommitPolyG[k] != nil)
+//@   modifies *
+//@   loop 0 invariant round.started
+//@   loop 1 invariant round.started
